@@ -16,8 +16,10 @@ REQUIRED = {"msteps": 300, "cmp_pop_mean": 300, "cmp_ind_mean": 300, "cmp_ind_st
             "cmp_noise_scalar": 50, "cmp_noise_diagonal": 50, "cmp_mixture_probs": 10, "cmp_together": 100, "boundary_iterations_checked": 15, "mixture_steps_with_a_nearly_empty_cluster": 3, "fits_on_an_algorithm_object_already_run_once": 10}
 ASSUMPTIONS = [
     "float32 sums over <= ~500 observations: rtol 2e-4, atol 1e-6",
-    "mixture model: per-cluster means/stds use a responsibility weighting the documentation does not pin - only probabilities (= mean "
-    "responsibilities, summing to one), population means and noise are judged for that kind",
+    "mixture model: per-cluster means/stds use a responsibility weighting the documentation does not pin - inside fits only probabilities (= mean "
+    "responsibilities, summing to one), population means and noise are judged for that kind; in the direct M-steps on constructed states the cluster "
+    "means of tau / xi are also compared with the responsibility-weighted average of the individuals' values (the repository's own rule), for "
+    "clusters whose total responsibility is a normal float32 number (>= 1e-30)",
     "fits aborted by leaspy's own convergence guard (variance collapsed) are skipped and counted",
 ]
 MISSING = ["none", "mcar", "heavy", "feature"]
@@ -179,6 +181,22 @@ def run_shard(spec, ctx):
                             alt = M.ind_std_sa(S[base], S[f"{base}_sqr"], mu_new)
                             if not M.close(alt, want, RTOL, ATOL + extra_atol):
                                 ctx.count("cmp_together")  # the two candidates are distinguishable on this step
+                elif p in ("tau_mean", "xi_mean") and is_mix and rec.get("nll_regul_ind_sum_ind") is not None and rec.get("direct_mixture"):
+                    # the repository's own rule for the mixture: responsibility-weighted average of the individuals' values, cluster by cluster
+                    r = M.responsibilities(rec["nll_regul_ind_sum_ind"])
+                    x = M.f64(state[base])[0].reshape(-1)
+                    mass = r.sum(axis=0)
+                    want = (r * x[:, None]).sum(axis=0) / mass
+                    tag = "mixture_cluster_mean"
+                    judged_cl = mass >= 1e-30  # below: float32 denormal responsibilities, the average is rounding noise
+                    if not judged_cl.all():
+                        ctx.count("mixture_cluster_means_not_judged_denormal_mass")
+                    if (mass[judged_cl] < 1e-7).any():
+                        ctx.count("mixture_cluster_means_with_tiny_mass_judged")
+                    g_ = np.asarray(got).reshape(-1)
+                    if g_.shape == want.shape:
+                        got, want = g_[judged_cl], want[judged_cl]
+                    extra_atol = 1e-3 * float(np.abs(x).max())
                 elif p == "noise_std" and "y_x_model" in S:
                     per_ft = got.size > 1
                     want, tag = M.noise_std(y, mask, S["y_x_model"], S["model_x_model"], per_ft), ("noise_diagonal" if per_ft else "noise_scalar")
@@ -251,7 +269,10 @@ def run_shard(spec, ctx):
                         c = int(rng.integers(0, kw["n_clusters"]))
                         # well separated, narrow clusters (admissible parameter values), all individuals drawn near cluster c
                         tm0 = st["tau_mean"]
-                        st["tau_mean"] = (60.0 + 40.0 * torch.arange(tm0.numel(), dtype=tm0.dtype)).reshape(tm0.shape)
+                        # far apart (the other clusters' responsibilities fall to the -100 floor) or moderately apart (7-10 prior std-devs: the
+                        # other clusters keep a total responsibility of 1e-9 ... 1e-20, small but a normal float32 number)
+                        spacing = 40.0 if rep != 1 else float(rng.uniform(6.5, 9.5))
+                        st["tau_mean"] = (60.0 + spacing * torch.arange(tm0.numel(), dtype=tm0.dtype)).reshape(tm0.shape)
                         st["tau_std"] = torch.ones_like(st["tau_std"])
                         tm = st["tau_mean"].reshape(-1)
                         xm = st["xi_mean"].reshape(-1)
@@ -260,7 +281,7 @@ def run_shard(spec, ctx):
                         if "sources" in model.individual_variables_names:
                             st["sources"] = torch.tensor(rng.normal(0, 0.3, size=(n_i, src)), dtype=torch.float32)
                         burn = bool(rep % 2)
-                        rec = {"k": 1 if burn else 2, "n_burn_in_iter": 1, "burn_in_flag": burn,
+                        rec = {"k": 1 if burn else 2, "n_burn_in_iter": 1, "burn_in_flag": burn, "direct_mixture": True,
                                "params_before": {p_: _cp(st._values[p_]) for p_ in model.parameters_names},
                                "nll_regul_ind_sum_ind": _cp(st["nll_regul_ind_sum_ind"])}
                         S = model.compute_sufficient_statistics(st)
